@@ -2,6 +2,7 @@ package main
 
 import (
 	"fmt"
+	"sort"
 	"go/token"
 	"go/types"
 	"strings"
@@ -47,6 +48,17 @@ func shapeOf(v ssa.Value, d int) string {
 	if d > 5 {
 		return "_"
 	}
+	if shapeNorm {
+		// integer arithmetic is rendered in a canonical linear form, so that re-associating or
+		// naming intermediate sums does not change the key
+		if bo, ok := v.(*ssa.BinOp); ok && (bo.Op == token.ADD || bo.Op == token.SUB || bo.Op == token.MUL) {
+			if _, _, isInt := isIntLike(bo.Type()); isInt && bo.Parent() != nil && exactArith(bo.Type()) {
+				if l := getAn(bo.Parent()).linOf(bo, 0); l.ok {
+					return canonLin(l, d)
+				}
+			}
+		}
+	}
 	switch x := v.(type) {
 	case *ssa.Const:
 		if x.Value == nil {
@@ -66,6 +78,9 @@ func shapeOf(v ssa.Value, d int) string {
 	case *ssa.Global:
 		return x.Name()
 	case *ssa.Alloc:
+		if p := spilledParam(x); p != nil {
+			return shapeOf(p, d)
+		}
 		if shapeNorm {
 			return "loc"
 		}
@@ -155,4 +170,46 @@ func siteShape(in ssa.Instruction) string {
 		return shapeOf(x, 0)
 	}
 	return in.String()
+}
+
+
+// spilledParam: the cell only ever holds a parameter of its function (a by-value parameter whose
+// address is taken, e.g. for a method call or a field access).
+func spilledParam(al *ssa.Alloc) *ssa.Parameter {
+	var p *ssa.Parameter
+	for _, ref := range *al.Referrers() {
+		if st, ok := ref.(*ssa.Store); ok && st.Addr == ssa.Value(al) {
+			q, isP := st.Val.(*ssa.Parameter)
+			if !isP || (p != nil && p != q) {
+				return nil
+			}
+			p = q
+		}
+	}
+	return p
+}
+
+
+// canonLin renders a linear form with its atoms in normalised shape, terms sorted.
+func canonLin(l lin, d int) string {
+	var parts []string
+	for at, co := range l.c {
+		n := shapeOf(at.v, d+1)
+		switch at.k {
+		case akLen:
+			n = "len(" + n + ")"
+		case akCap:
+			n = "cap(" + n + ")"
+		}
+		if co == 1 {
+			parts = append(parts, n)
+		} else {
+			parts = append(parts, fmt.Sprintf("%d*%s", co, n))
+		}
+	}
+	sort.Strings(parts)
+	if l.k != 0 || len(parts) == 0 {
+		parts = append(parts, fmt.Sprint(l.k))
+	}
+	return "(" + strings.Join(parts, "+") + ")"
 }
